@@ -10,6 +10,7 @@ import (
 
 	"github.com/ohler55/slip"
 	"github.com/ohler55/slip/pkg/flavors"
+	"github.com/ohler55/slip/pkg/generic"
 )
 
 const (
@@ -534,4 +535,6 @@ func classChanged(cc slip.Class, p *slip.Package) {
 	for _, sc := range stale {
 		sc.mergeSupers()
 	}
+	// Dispatch caches are keyed by class name.
+	generic.ClearCaches()
 }
